@@ -76,7 +76,8 @@ impl FieldAttributesInfo {
                     "The `default` field attribute is defined twice.",
                 ));
             }
-            self.default = Some(default)
+            self.default = Some(default);
+            self.default_span = other.default_span;
         }
         if let Some(missing_field_error) = other.missing_field_error {
             if let Some(self_missing_field_error) = &self.missing_field_error {
@@ -423,6 +424,7 @@ impl ContainerAttributesInfo {
                 ));
             }
             self.validate = Some(x);
+            self.validate_span = other.validate_span;
         }
 
         self.generic_params.extend(other.generic_params);
@@ -565,6 +567,7 @@ impl syn::parse::Parse for ContainerAttributesInfo {
                     let validate_func = parse_function_returning_error(input)?;
                     // #[deserr( ... validate = some::func<T> )]
                     this.validate = Some(validate_func);
+                    this.validate_span = Some(attr_name.span());
                 }
                 "generic_param" => {
                     let _eq = input.parse::<Token![=]>()?;
